@@ -43,6 +43,13 @@ def src_files():
     return sorted(out)
 
 
+CALL_SWAP = {"startswith": "endswith", "endswith": "startswith", "lstrip": "rstrip", "rstrip": "lstrip", "strip": "lstrip", "split": "rsplit",
+             "any": "all", "all": "any", "min": "max", "max": "min", "search": "match", "match": "search", "finditer": "findall",
+             "append": "extend", "update": "setdefault", "get": "pop", "items": "keys", "fullmatch": "match", "lower": "upper", "partition": "rpartition",
+             "index": "count", "add": "discard"}
+UNWRAP = {"deepcopy", "sorted", "list", "tuple", "set", "str", "reversed", "copy", "bool", "len"}
+
+
 class Counter(ast.NodeVisitor):
     """enumerate mutation sites: list of (kind, node-index, variant)"""
 
@@ -89,6 +96,21 @@ class Counter(ast.NodeVisitor):
             self.sites.append(("slice", i, 0))
         if isinstance(node, ast.Subscript) and isinstance(node.slice, ast.Constant) and isinstance(node.slice.value, int):
             self.sites.append(("index", i, 0))
+            if node.slice.value in (0, -1):
+                self.sites.append(("endidx", i, 0))
+        if isinstance(node, ast.Call):
+            fname = node.func.attr if isinstance(node.func, ast.Attribute) else (node.func.id if isinstance(node.func, ast.Name) else None)
+            if fname in CALL_SWAP:
+                self.sites.append(("callswap", i, 0))
+            if fname in UNWRAP and len(node.args) == 1 and not node.keywords:
+                self.sites.append(("unwrap", i, 0))
+            if node.keywords:
+                self.sites.append(("dropkw", i, 0))
+        if isinstance(node, ast.IfExp):
+            self.sites.append(("ifexp", i, 0))
+        if isinstance(node, ast.Attribute) and isinstance(node.ctx, ast.Load) and node.attr in ("min", "max", "min_times", "max_times", "addr", "mnemonic",
+                                                                                               "operands", "min_addr", "max_addr"):
+            self.sites.append(("attrswap", i, 0))
         super().generic_visit(node)
 
 
@@ -164,6 +186,31 @@ class Apply(ast.NodeTransformer):
         elif k == "index":
             node.slice = ast.Constant(value=node.slice.value + 1 if node.slice.value >= 0 else node.slice.value - 1)
             self.done = "constant index shifted by one"
+        elif k == "endidx":
+            node.slice = ast.Constant(value=-1 if node.slice.value == 0 else 0)
+            self.done = "first <-> last element"
+        elif k == "callswap":
+            if isinstance(node.func, ast.Attribute):
+                old = node.func.attr
+                node.func.attr = CALL_SWAP[old]
+            else:
+                old = node.func.id
+                node.func.id = CALL_SWAP[old]
+            self.done = f"call {old} -> {CALL_SWAP[old]}"
+        elif k == "unwrap":
+            self.done = f"call removed, argument kept: {ast.unparse(node)[:60]}"
+            return node.args[0]
+        elif k == "dropkw":
+            self.done = f"last keyword argument dropped: {ast.unparse(node)[:60]}"
+            node.keywords = node.keywords[:-1]
+        elif k == "ifexp":
+            node.body, node.orelse = node.orelse, node.body
+            self.done = "branches of a conditional expression swapped"
+        elif k == "attrswap":
+            pairs = {"min": "max", "max": "min", "min_times": "max_times", "max_times": "min_times", "addr": "mnemonic", "mnemonic": "addr",
+                     "operands": "mnemonic", "min_addr": "max_addr", "max_addr": "min_addr"}
+            self.done = f"attribute .{node.attr} -> .{pairs[node.attr]}"
+            node.attr = pairs[node.attr]
         return node
 
 
